@@ -2,7 +2,7 @@
 from __future__ import annotations
 
 from harness import impl
-from harness.common import rng, short
+from harness.common import quick_scale, rng, short
 from harness.gen import corpus, mutate, pyprog, xonshgen
 
 
@@ -122,7 +122,7 @@ def spread(s: str) -> str:
 
 def build_inputs(tier):
     r = rng("C11")
-    N = 1 if tier == "quick" else 30
+    N = quick_scale() if tier == "quick" else 30
     cases = []
     for s in INVALID_SNIPPETS:
         cases.append(("table", s, "exec", None))
